@@ -194,6 +194,12 @@ def advanceConfirmed (x : WP) (b : Binding) (confirmed : Nat) : WP × List WOut 
 def resend (session : Nat) (b : Binding) : List WOut :=
   (b.unconfirmed.takeWhile (fun d => d.workerSeq ≤ b.currentSeq && d.workerSeq ≤ b.demandUpTo)).flatMap (emit session b)
 
+/-- `resendUnconfirmed` for the binding of worker `name` (as it is after the demand update) -/
+def resendFor (x : WP) (name : Nat) : List WOut :=
+  match x.find name with
+  | some b => resend x.session b
+  | none => []
+
 /-- `handleRequest` from the authenticated sender `(name, comp)` -/
 def handleRequest (x : WP) (name comp session nonce confirmed upTo : Nat) (viaTimeout : Bool) : WP × List WOut :=
   match x.bindingFrom name comp session nonce with
@@ -204,7 +210,7 @@ def handleRequest (x : WP) (name comp session nonce confirmed upTo : Nat) (viaTi
     else
       let (x1, o1) := x.advanceConfirmed b confirmed
       let x2 := x1.updateBinding b.name (fun b0 => { b0 with demandUpTo := upTo })
-      let o2 := if viaTimeout then (match x2.find b.name with | some b2 => resend x2.session b2 | none => []) else []
+      let o2 := if viaTimeout then x2.resendFor b.name else []
       let (x3, o3) := x2.progress
       (x3, o1 ++ o2 ++ o3)
 
